@@ -257,9 +257,13 @@ where
 
                                 // write the files to the current directory with their SOPInstanceUID as filenames
                                 let mut file_path = out_dir.to_path_buf();
-                                file_path.push(
-                                    sop_instance_uid.trim_end_matches('\0').to_string() + ".dcm",
-                                );
+                                // the UID comes from the peer: never let it name a path
+                                let file_name: String = sop_instance_uid
+                                    .trim_end_matches('\0')
+                                    .chars()
+                                    .map(|c| if std::path::is_separator(c) || c == '\0' { '_' } else { c })
+                                    .collect();
+                                file_path.push(file_name + ".dcm");
                                 file_obj
                                     .write_to_file(&file_path)
                                     .whatever_context("could not save DICOM object to file")?;
